@@ -98,6 +98,8 @@ class Runner:
         if self.mode == "clock":
             return {"scenario": NAME, "cls": self.cls, "faults": [],
                     "ops": [{"op": "clock", "freq": rng.choice([0.0, 0.5, 1.0, 1.25, 1.5, 2.0, 3.7, rng.uniform(0.1, 4.0)]), "dt": rng.choice([0.02, 0.04, 0.01, 0.005]), "n": self.cls["n"]},
+                            # more than one whole gait cycle per control step (frequency * dt >= 1): the wrap must still land in [-pi, pi]
+                            {"op": "clock", "freq": rng.choice([10.5, 11.0, 12.0, 25.0]), "dt": 0.1, "n": self.cls["n"]},
                             {"op": "heights", "swing": rng.choice([0.15, 0.05, 0.3, 1.0]), "grid": 4001}]}
         return {"scenario": NAME, "cls": self.cls, "faults": [],
                 "ops": [{"op": "resets", "key": rng.getrandbits(31)}, {"op": "episodes", "key": rng.getrandbits(31), "hold": rng.random() < 0.3}]}
